@@ -296,7 +296,7 @@ def _session(job):
         sc['update_kinds'] = rng.sample(['trail_sl', 'tp_ladder', 'sl_ladder', 'liquidate', 'near_tp', 'near_tp', 'add_market', 'add_market',
                                          'reweight_tp', 'reweight_tp', 'reweight_sl', 'trail_sl_inplace', 'trail_sl_inplace', 'move_tp_inplace',
                                          'double_market_exit', 'double_market_exit', 'partial_market_sl', 'partial_market_sl',
-                                         'partial_market_tp'],
+                                         'partial_market_tp', 'withdraw_tp', 'withdraw_tp', 'withdraw_sl'],
                                         rng.randint(2, 4))
         sc['on_increased'] = rng.choice(['retarget', 'retarget', None])
         sc['cancel_policy'] = rng.choice(['rnd', 'rnd', 'never', 'always'])
